@@ -9,19 +9,24 @@ import tlc
 LEVEL = 'model_checking'
 PROPS = ['ExactlyOnce', 'NothingMissedForever']
 INVS = ['UpdateShape']
-ALL_ACTS = {'suggest', 'complete', 'add', 'request', 'delete', 'stop', 'restart'}
+ALL_ACTS = {'suggest', 'complete', 'add', 'request', 'delete', 'stop', 'restart', 'bump'}
 
 
 def configs(ctx):
   base = dict(Studies={'s1'}, Clients={'w1', 'w2'}, MaxId=3, Cells={'c1'}, Recycle='never', MaxCount=2)
   if not ctx.thorough:
-    return [('stateful_full', dict(base, Mode='stateful', MaxDepth=12, Acts=ALL_ACTS - {'stop', 'restart'}, Clients={'w1'}), ['ram'], 1.0),
-            ('stateful_restart_d5', dict(base, Mode='stateful', MaxDepth=5, Acts=ALL_ACTS, Clients={'w1'}), ['sqlfile'], 0.15),
-            ('fresh_d5', dict(base, Mode='fresh', MaxDepth=5, Acts=ALL_ACTS - {'restart'}), ['ram'], 0.3)]
-  return [('stateful_full', dict(base, Mode='stateful', MaxDepth=14, Acts=ALL_ACTS - {'restart'}), ['ram', 'sqlmem'], 1.0),
+    return [('stateful_full', dict(base, Mode='stateful', MaxDepth=12, Acts=ALL_ACTS - {'stop', 'restart', 'bump'}, Clients={'w1'}), ['ram'], 1.0),
+            ('stateful_bump_d6', dict(base, Mode='stateful', MaxDepth=6, Acts={'suggest', 'complete', 'add', 'bump'}, Clients={'w1'}), ['ram'], 1.0),
+            ('stateful_restart_d5', dict(base, Mode='stateful', MaxDepth=5, Acts=ALL_ACTS - {'bump'}, Clients={'w1'}), ['sqlfile'], 0.15),
+            ('fresh_d5', dict(base, Mode='fresh', MaxDepth=5, Acts=ALL_ACTS - {'restart', 'bump'}), ['ram'], 0.3)]
+  return [('stateful_full', dict(base, Mode='stateful', MaxDepth=14, Acts=ALL_ACTS - {'restart', 'bump'}), ['ram', 'sqlmem'], 1.0),
+          ('stateful_bump_d7', dict(base, Mode='stateful', MaxDepth=7, Acts={'suggest', 'complete', 'add', 'bump', 'delete'}, Clients={'w1'}), ['ram'], 1.0),
           ('stateful_maxid4', dict(base, Mode='stateful', MaxDepth=9, MaxId=4, Acts=ALL_ACTS - {'stop', 'restart'}, Clients={'w1'}), ['ram'], 0.5),
-          ('stateful_restart_d6', dict(base, Mode='stateful', MaxDepth=6, Acts=ALL_ACTS, Clients={'w1'}), ['sqlfile'], 0.1),
-          ('fresh_d6', dict(base, Mode='fresh', MaxDepth=6, Acts=ALL_ACTS - {'restart'}), ['ram'], 0.3)]
+          ('stateful_restart_d6', dict(base, Mode='stateful', MaxDepth=6, Acts=ALL_ACTS - {'bump'}, Clients={'w1'}), ['sqlfile'], 0.1),
+          ('fresh_d6', dict(base, Mode='fresh', MaxDepth=6, Acts=ALL_ACTS - {'restart', 'bump'}), ['ram'], 0.3)]
+
+
+FORMAT = [0]
 
 
 def make_factory(mode, log):
@@ -44,13 +49,14 @@ def make_factory(mode, log):
 
     def dump(self):
       md = vz.Metadata()
-      md['recording'] = 'state'
+      md['recording'] = 'format-%d' % FORMAT[0]
       return md
 
     def load(self, md):
-      if 'recording' not in md:
+      # state written by another format version is undecodable (model action "Bump")
+      if md.get('recording') != 'format-%d' % FORMAT[0]:
         from vizier.interfaces import serializable
-        raise serializable.HarmlessDecodeError('no state')
+        raise serializable.HarmlessDecodeError('no state / other format')
 
   class Factory:
 
@@ -66,6 +72,7 @@ def run_history(hist, conf, mode, backend, scratch):
   import world
   from vizier._src.service import pythia_service
   log = []
+  FORMAT[0] = 0
   factory = make_factory(mode, log)
   url = world.backend_url(backend, scratch)
   svc = world.make_servicer(url, 'never', factory)
@@ -74,6 +81,9 @@ def run_history(hist, conf, mode, backend, scratch):
   before = 0
   for c in hist:
     before = len(log)
+    if c['rpc'] == 'Bump':
+      FORMAT[0] += 1
+      continue
     if c['rpc'] == 'Restart':
       if backend == 'sqlfile':
         svc.datastore._engine.dispose()  # pylint: disable=protected-access
